@@ -181,6 +181,29 @@ def SchemaMethod.modelled : SchemaMethod → Bool
   | .other _ => false
   | _ => true
 
+/-- every input the identifier normalisation (`normalize_name` -> `Dialect.normalize_identifier`) can depend on:
+    the spelling, the quoting, the dialect, the `normalize` switch and the identifier's ROLE (`meta["is_table"]`,
+    which role-sensitive dialects such as BigQuery read) -/
+inductive NormInput where
+  | name | quoted | dialect | normalize | role
+deriving DecidableEq, Repr
+
+def nameHasInput (l : List NField) : NormInput → Bool
+  | .name => l.contains .name
+  | .quoted => l.contains .quoted
+  | .dialect => l.contains .dialect
+  | .normalize => l.contains .normalize
+  | .role => l.contains .isTable
+
+/-- `_normalize_table` hands every part over with the constant role `is_table=True`; spelling and quoting are the
+    table expression itself -/
+def tableHasInput (l : List TField) : NormInput → Bool
+  | .name => l.contains .table
+  | .quoted => l.contains .table
+  | .dialect => l.contains .dialect
+  | .normalize => l.contains .normalize
+  | .role => false
+
 def nameHas (l : List NField) : CallOpt → Bool
   | .dialect => l.contains .dialect
   | .normalize => l.contains .normalize
